@@ -5,6 +5,7 @@ package main
 
 import (
 	"fmt"
+	"os"
 
 	"github.com/piotrnar/gocoin/lib/btc"
 	"verif/chainkit"
@@ -331,8 +332,10 @@ func init() {
 			// two branches can grow alternately: A (active) to f+2000, B (stored aside, never heavier) to f+1990, A to f+3990,
 			// B to f+3980 … then B overtakes. The reorganisation has to disconnect 3990 blocks, but CommitBlockTxs removed the
 			// undo files more than 2560 below the tip: UndoBlockTxs deletes the block's outputs, then panics on the missing
-			// file (known finding deep-reorg-pruned-undo-panic). The model panics at the same block.
+			// file (known finding deep-reorg-pruned-undo-panic). The model panics at the same block ("panic:undo file
+			// missing": checked once by hand with C06_DEEP_MODEL=1, 15 min for the list-based model), so the run goes without it.
 			s.bulk, s.quietBase = true, true
+			s.noModel = os.Getenv("C06_DEEP_MODEL") == ""
 			fork := s.blocks[0]
 			for i := 0; i < 3 && !s.dead; i++ {
 				fork = s.addBlock(fork, blockOpts{label: "base"})
@@ -357,6 +360,7 @@ func init() {
 			}
 			r.Hit("deep/branches-built(a=3990,b=3980 above the fork)")
 			s.bulk, s.quietBase = false, false
+			s.deepReorg = true
 			grow(b, 12, "b-overtakes") // at the block that makes B heavier the reorganisation starts
 		}},
 		{name: "prev-hash-shares-only-index-key", opts: tn, run: func(s *scen) {
